@@ -18,25 +18,35 @@ import time
 from pathlib import Path
 
 import dbparse
+import gen_speciation
 import vlib
 from gens import speciate as gens
 from vlib import shrink_list
 
 MANIFEST = dict(
-    technique="Lean 4 proof on an executable model (layers F+L) + in-process differential correspondence with an independent database parser",
-    text=("Theorems (all inputs, Rat with uninterpreted log10/ln/sqrt): kCalc_addScaled/kCalc_linear (log K(T,P) is linear in the "
-          "parameter vector), kCalc_pressure_off, kCalc_reference, vant_hoff, dhToKJ_*; rewrite_residual_eq / "
-          "rewrite_mass_action_iff (for every substitution sequence of rewriteToMasters the database equation holds iff the "
-          "rewritten one does), rewrite_only_masters, rewrite_preserves_balance, residual_pivot, speciate_mass_action; "
-          "kCalc_smul / residual_solveFor (electron equation of a redox couple), satIndex_rewrite; iterate_sound / gate_sound (for every step function runModel = ok implies converged and checkResiduals), "
-          "converged_mb/alk/cb/mu with the code's escape clauses, readouts_consistent; non-vacuity examples. "
-          "Obligations over generated data: per dumped state the database mass-action residual of every species <= 1e-9, sums at "
-          "1e-7 relative, read-out identities. Correspondence: rewritten stoichiometry, log K vectors, lk(T), lm, gate verdict, "
-          "k_calc on random vectors, dbparse vs the engine's reading of each database."),
-    note=("Trusted: Lean kernel, tools/dbparse.py (independent parser, itself cross-checked against the engine's tables), the "
-          "harness, the tolerance logic here. Partial: Newton convergence, floating-point rounding, the pressure term above 1 atm "
-          "(scope is 1 atm) and the activity-coefficient model (gammas are taken as reported; C16 owns them) are not proved; "
-          "valence-state totals (TOT(\"Fe(2)\")) are not recomputed, only element totals."),
+    technique="Lean 4 proof on an executable model (layers F+L) + translator of source constants/code shapes + in-process differential correspondence with an independent database parser",
+    text=("Theorems (73; all inputs, Rat with uninterpreted log10/ln/sqrt/exp10): kCalc_addScaled/linear/smul, kCalc_pressure_off, "
+          "kCalc_reference, vant_hoff, dhToKJ_*; source_constants, kCalc_source, dhToKJ_source, alk_lookup_order (the models use exactly "
+          "the constants, the k_calc shape and the calc_alk lookup order that tools/gen_speciation.py reads from the source on every run); "
+          "named expressions: nz_iff, selectExpr_idem, kCalc_selectExpr_analytic/plain, kCalc_addOther (any sign, zero), kCalc_combineLogK, "
+          "kCalc_combineNamed; rewriting: evalBody_* algebra, residual_substOne/pivot/solveFor, rewrite_residual_eq, rewrite_mass_action_iff, "
+          "rewrite_mass_action_kCalc, rewrite_only_masters, rewrite_preserves_balance, satIndex_rewrite; speciate_mass_action/residual; "
+          "gate: iterate_sound, gate_sound (every step/again function), converged_mb/alk/cb/mu, checkResiduals_mb/cb/mu; alkalinity: "
+          "lastLine_spec, masterAlk_valence_precedence, masterAlk_element_line; underMoles_zero/mid/cap; sums: sumBy/total/chargeBalance/"
+          "valenceTotal_append, valence_totals_add_up; readouts_consistent; non-vacuity examples (carbonate network, O2/H2O couple, minteq Fe "
+          "lines with the negation witness of the wrong lookup order, Fe valence totals, gate runs). "
+          "Obligations over generated data: per dumped state the database mass-action residual of every species <= 1e-9, stored moles = "
+          "under(lm)*water, element and valence-state totals / charge balance / ionic strength / alkalinity at 1e-7, SI/SR/LK_PHASE/"
+          "LK_SPECIES/LK_NAMED/LA/LM/LG/MOL/ACT/GAMMA/TOT and the GetSelectedOutputValue cells. Correspondence: rewritten stoichiometry, "
+          "log K vectors, lk(T), lm (molalities() re-applied), electron equations of redox couples (derived by the model, tied to pe_x), "
+          "gate verdict, k_calc on random vectors, dbparse vs the engine's tables (species, phases, resolved named-expression chains) for "
+          "shipped and generated databases."),
+    note=("Trusted: Lean kernel, tools/dbparse.py and tools/gen_speciation.py (regex extraction, fails closed: recognised=false breaks "
+          "source_constants), the harness, the tolerance logic here. Partial: Newton convergence, floating-point rounding, the pressure "
+          "term above 1 atm (scope is 1 atm) and the activity-coefficient model (gammas are taken as reported; C16 owns them) are not "
+          "proved; valence totals of elements with -mole_balance species (polysulfides, isotopologues) and non-master species written with "
+          "e- under a non-default couple are counted, not judged; exchange/surface species themselves are outside C01 (the aqueous species "
+          "of such systems are judged)."),
 )
 
 STALE_KEY = "stale-molalities-after-revise-guesses"
@@ -934,6 +944,7 @@ def databases(ctx):
 
 
 def run(ctx):
+    gen_speciation.generate(ctx)          # translator first: constants and code shapes of the speciation path → Gen/SpeciationSrc.lean
     ok = ctx.prove(["PhreeqcVerif.Properties.C01"])
     ctx.build_lib()
     exe = ctx.build_harness("ph_speciate")
@@ -1062,16 +1073,19 @@ def _run(ctx, ok, exe):
     ctx.cov["not_judged"] = {"runs_with_error_or_no_convergence": stats["runs_error"], "states_above_1atm": stats["above_1atm"],
                              "species_with_reactant_outside_model": stats["res_missing"],
                              "species_under_non_default_redox_couple": stats["res_altpe_skipped"]}
-    ctx.cov["rule"] = ("per database: random SOLUTION (1-8 elements of the database, log-uniform molality, pH 2-12, pe, 0-100 C, unit "
-                       "spellings, charge/phase adjustment, valence states, O(0)/O(-2) couple) optionally followed by REACTION / MIX / "
-                       "REACTION_TEMPERATURE; every punch of a run that returned 0 is one dumped state; non-trivial = one species whose "
-                       "database mass-action residual was evaluated from the independently parsed text (masters in use excluded)")
+    ctx.cov["rule"] = ("per database (shipped + generated synthetic ones): random SOLUTION (1-8 elements of the database, log-uniform molality, "
+                       "pH 2-12, pe, 0-100 C, unit spellings, charge/phase adjustment, valence states, redox couples on the solution or on one "
+                       "element) optionally followed by REACTION / MIX / REACTION_TEMPERATURE / EXCHANGE / SURFACE / EQUILIBRIUM_PHASES / "
+                       "ADVECTION / TRANSPORT / a redefinition in a later simulation; plus a deterministic element sweep (every element at 4 "
+                       "temperature-pH-pe corners) and the corpus; every punch of a run that returned 0 is one dumped state; non-trivial = one "
+                       "species whose database mass-action residual was evaluated from the independently parsed text (masters in use excluded)")
     ctx.cov["max_mass_action_residual_seen"] = stats["res_max"]
 
 
 def replay(ctx, data):
     ctx.build_lib()
     exe = ctx.build_harness("ph_speciate")
+    gen_speciation.generate(ctx)
     ctx.prove(["PhreeqcVerif.Properties.C01"])
     snapshot_pmodel(ctx)
     try:
